@@ -79,33 +79,50 @@ class BldBatch:
         self.driver = None
 
     # ------------------------------------------------------------ inputs
-    def add(self, schema, fmt, veneers=None, text=None, closed=False):
+    def _input(self, d, pkg, fmt, text):
+        if fmt == "cue":
+            path = os.path.join(d, pkg + ".cue")
+            inp = "  - cue:\n      entrypoint: '%s'\n      package: %s\n" % (d, pkg)
+        elif fmt == "jsonschema":
+            path = os.path.join(d, "schema.json")
+            inp = "  - jsonschema:\n      path: '%s'\n      package: %s\n" % (path, pkg)
+        elif fmt == "openapi":
+            path = os.path.join(d, "openapi.json")
+            inp = "  - openapi:\n      path: '%s'\n      package: %s\n" % (path, pkg)
+        else:
+            raise ValueError(fmt)
+        with open(path, "w") as f:
+            f.write(text)
+        return path, inp
+
+    def add(self, schema, fmt, veneers=None, text=None, closed=False, extra_inputs=None, passes=None):
+        """extra_inputs: [(package, format, schema text)] further inputs of the same pipeline (other packages);
+        passes: schema transformations (internal/yaml compiler passes) applied to all inputs"""
         sid = schema["pkg"]
         assert sid not in self.schemas, sid
         d = os.path.join(self.in_dir, sid)
         os.makedirs(d)
         if text is None:
             text = srcgen.render(schema, fmt, closed=closed)
-        if fmt == "cue":
-            path = os.path.join(d, sid + ".cue")
-            inp = "  - cue:\n      entrypoint: '%s'\n      package: %s\n" % (d, sid)
-        elif fmt == "jsonschema":
-            path = os.path.join(d, "schema.json")
-            inp = "  - jsonschema:\n      path: '%s'\n      package: %s\n" % (path, sid)
-        elif fmt == "openapi":
-            path = os.path.join(d, "openapi.json")
-            inp = "  - openapi:\n      path: '%s'\n      package: %s\n" % (path, sid)
-        else:
-            raise ValueError(fmt)
-        with open(path, "w") as f:
-            f.write(text)
+        path, inp = self._input(d, sid, fmt, text)
+        for k, (xpkg, xfmt, xtext) in enumerate(extra_inputs or []):
+            xd = os.path.join(self.in_dir, "%s_x%d" % (sid, k))
+            os.makedirs(xd)
+            inp += self._input(xd, xpkg, xfmt, xtext)[1]
         cfg_text = "inputs:\n" + inp
+        if veneers or passes:
+            cfg_text += "transformations:\n"
+        if passes:
+            pfile = os.path.join(self.in_dir, sid + "_passes.yaml")
+            with open(pfile, "w") as f:
+                f.write(json.dumps({"passes": passes}, indent=1) + "\n")
+            cfg_text += "  schemas:\n    - '%s'\n" % pfile
         if veneers:
             vdir = os.path.join(self.in_dir, sid + "_veneers")
             os.makedirs(vdir)
             with open(os.path.join(vdir, "veneers.yaml"), "w") as f:
                 f.write(render_veneers(sid, veneers))
-            cfg_text += "transformations:\n  builders:\n    - '%s'\n" % vdir
+            cfg_text += "  builders:\n    - '%s'\n" % vdir
         out = "output:\n  directory: '%l'\n  types: true\n  builders: true\n"
         if self.converters:
             out += "  converters: true\n"
@@ -117,7 +134,8 @@ class BldBatch:
         cfg = os.path.join(self.in_dir, sid + ".yaml")
         with open(cfg, "w") as f:
             f.write(cfg_text + out)
-        self.schemas[sid] = {"schema": schema, "fmt": fmt, "path": path, "cfg": cfg, "text": text, "veneers": veneers or []}
+        self.schemas[sid] = {"schema": schema, "fmt": fmt, "path": path, "cfg": cfg, "text": text, "veneers": veneers or [],
+                             "extra_inputs": [list(x) for x in (extra_inputs or [])], "passes": passes or []}
         return sid
 
     # ------------------------------------------------------------ cog
@@ -592,7 +610,7 @@ class ArgGen:
             if rt["Kind"] == "struct":
                 bs = self.ir.builders_for_ref(t)
                 if bs and not plain:
-                    return self.gen_builder(bs[0], want, depth + 1)
+                    return self.gen_builder(r.choice(bs), want, depth + 1)
                 if self.lang != "go":
                     raise Unsupported("plain struct argument")
                 return {"v": self._plain_struct(rt, depth + 1)}, set()
@@ -1283,4 +1301,68 @@ def scenarios(rng, prefix="t"):
         rules = [{"array_to_append": {"by_name": "Root.%s" % f}}, {"disjunction_as_options": {"by_name": "Root.%s" % f}}]
         out.append({"schema": schema, "fmt": fmts[(variant + 2) % 3], "veneers": {"options": rules}, "shape": "union-list",
                     "docs": {"Root": docs}})
+    # ---- cross-package-constant: a required field referring to a CONSTANT object of another package (retype_field
+    #      schema transformation on a two-input pipeline), without / with an unrelated local constant of that name
+    for variant in range(2):
+        main, other = pkg(), pkg() + "k"
+        cname = rng.choice(["Kind", "Flavor"])
+        cval = rng.choice(["timeseries", "gauge", "table"])
+        fields = [_F("kind", {"k": "string"}, True), _F("title", {"k": "string"}, True), _F("n", {"k": "int", "w": "int64"})]
+        defs = [{"name": "Root", "t": {"k": "struct", "fields": sorted(fields, key=lambda f: f["name"])}}]
+        if variant == 1:
+            defs.append({"name": cname, "t": {"k": "const", "v": "local-" + cval}})
+            defs[0]["t"]["fields"].append(_F("own", {"k": "ref", "name": cname}, True))
+            defs[0]["t"]["fields"].sort(key=lambda f: f["name"])
+        schema = {"pkg": main, "root": "Root", "defs": sorted(defs, key=lambda d: d["name"])}
+        xtext = json.dumps({"$schema": "http://json-schema.org/draft-07/schema#", "$ref": "#/definitions/" + cname,
+                            "definitions": {cname: {"type": "string", "const": cval}}})
+        passes = [{"retype_field": {"field": "%s.Root.kind" % main,
+                                    "as": {"kind": "ref", "ref": {"referred_pkg": other, "referred_type": cname}}}}]
+        out.append({"schema": schema, "fmt": ["jsonschema", "cue"][variant], "veneers": None, "shape": "cross-package-constant",
+                    "docs": {}, "extra_inputs": [(other, "jsonschema", xtext)], "passes": passes,
+                    "expect_constants": {"Root": {"kind": cval}}})
+    # ---- deep-merge: merge_into under a path of 1..6 optional segments, leaf struct with fields of different types
+    depths = [3, 5, rng.choice([1, 2, 4, 6])]
+    for variant, depth in enumerate(depths):
+        seg = ["fieldConfig", "defaults", "custom", "inner", "core", "leafs"][:depth]
+        Leaf = {"name": "Leaf", "t": {"k": "struct", "fields": [_F("fill", {"k": "string"}), _F("lineWidth", {"k": "int", "w": "int64"}),
+                                                            _F("points", {"k": "bool"}), _F("ratio", {"k": "float", "w": "float64"})]}}
+        defs = [Leaf]
+        prev = "Leaf"
+        for i in range(depth - 1, 0, -1):
+            name = "L%d" % i
+            defs.append({"name": name, "t": {"k": "struct", "fields": sorted([_F(seg[i], {"k": "ref", "name": prev}), _F("tag%d" % i, {"k": "string"})],
+                                                                           key=lambda f: f["name"])}})
+            prev = name
+        defs.append({"name": "Root", "t": {"k": "struct", "fields": sorted([_F(seg[0], {"k": "ref", "name": prev}), _F("title", {"k": "string"})],
+                                                                         key=lambda f: f["name"])}})
+        ven = {"builders": [{"merge_into": {"destination": "Root", "source": "Leaf", "under_path": ".".join(seg)}}]}
+        schema = {"pkg": pkg(), "root": "Root", "defs": sorted(defs, key=lambda d: d["name"])}
+        out.append({"schema": schema, "fmt": fmts[variant % 3], "veneers": ven, "shape": "deep-merge", "docs": {}})
+    # ---- multi-builder: one object with several builders told apart by a constructor constant, one constructor
+    #      argument each (duplicate + rename + initialize + promote_options_to_constructor + omit)
+    for variant in range(2):
+        tf, nf, qf = rng.choice([("type", "name", "query"), ("kind", "id", "expr")])
+        a, b2 = ("query", "custom") if variant == 0 else ("interval", "constant")
+        Var = {"name": "Variable", "t": {"k": "struct", "fields": sorted([_F(tf, {"k": "string"}, True), _F(nf, {"k": "string"}, True),
+                                                                        _F(qf, {"k": "string"}, True)], key=lambda f: f["name"])}}
+        Root = {"name": "Root", "t": {"k": "struct", "fields": sorted([_F("title", {"k": "string"}, True),
+                                                                    _F("variables", {"k": "array", "of": {"k": "ref", "name": "Variable"}}, True)],
+                                                                   key=lambda f: f["name"])}}
+        schema = {"pkg": pkg(), "root": "Root", "defs": [Root, Var]}
+        A, B = "First" + "Variable", "Second" + "Variable"
+        ven = {"builders": [{"duplicate": {"by_object": "Variable", "as": B}},
+                            {"rename": {"by_name": "Variable", "as": A}},
+                            {"initialize": {"by_name": A, "set": [{"property": tf, "value": a}]}},
+                            {"initialize": {"by_name": B, "set": [{"property": tf, "value": b2}]}},
+                            {"promote_options_to_constructor": {"by_name": A, "options": [nf]}},
+                            {"promote_options_to_constructor": {"by_name": B, "options": [nf]}}],
+               "options": [{"omit": {"by_builder": "%s.%s" % (x, y)}} for x in (A, B) for y in (tf, nf)]}
+        v = lambda t, n, q: {tf: t, nf: n, qf: q}
+        docs = [{"title": "d", "variables": [v(a, "q1", "up"), v(b2, "c1", "a,b")]},
+                {"title": "d", "variables": [v(b2, "c1", "x"), v(b2, "", "y"), v(a, "n", "z")]},
+                {"title": "d", "variables": [v(b2, "only", "w")]},
+                {"title": "d", "variables": []}]
+        out.append({"schema": schema, "fmt": fmts[(variant + 1) % 3], "veneers": ven, "shape": "multi-builder",
+                    "docs": {"Root": docs, "Variable": [v(a, "q1", "up"), v(b2, "c1", "a,b")]}})
     return out
